@@ -35,6 +35,8 @@ type Mesh struct {
 	Net   *simnet.World
 	Tap   *TapSet
 	byID  map[identity.AgentID]*Node
+	// TunnelExit is scratch space for worlds that send all tunnels to one exit.
+	TunnelExit int
 }
 
 func nodeID(i int) (identity.AgentID, string) {
